@@ -863,6 +863,24 @@ def _tables(ctx, prog):
     ctx.require(len(ld) == 1, "evo_res: load_results_as_dataframe call not "
                 "found")
     b = ld[0].data["bound"]
+    # parameters the loader gained later are analysed at their defaults: a
+    # value evo_res itself passes for one of them (a filter on the arrays
+    # that are loaded ...) takes the run outside that analysis
+    tgt_ = ld[0].data.get("target")
+    if tgt_ is not None:
+        import ast as _ast
+        dfl = tgt_.defaults()
+        for k_, v_ in b.items():
+            if k_ in ("result_files", "use_filenames", "merge", "labels"):
+                continue
+            d_ = dfl.get(k_)
+            same = isinstance(d_, _ast.Constant) and tm.is_const(v_) and \
+                tm.const_val(v_) == d_.value
+            if not same:
+                ctx.undecidable("C13.6", ld[0], f"evo_res passes "
+                                f"{k_}={fmt(v_)[:60]} to a parameter the "
+                                f"loader gained later: the merge / table "
+                                f"rules were decided for its default")
     rf = b.get("result_files")
     RF = A("result_files")
     # the file list itself, or one computed from it by a helper (expanding
